@@ -31,6 +31,9 @@ def prim_pool(rng, names, thorough):
     pool.append(lambda pid: Prim("t", ["-false"], lambda e: False))
     for nm in names:
         pool.append(lambda pid, nm=nm: Prim("t", ["-name", nm.decode()], lambda e, nm=nm: e["name"] == nm))
+    # operands that look like grammar symbols: they are operands, not brackets or operators
+    for tok in ("(", ")", "!", "-o", ","):
+        pool.append(lambda pid, tok=tok: Prim("t", ["-name", tok], lambda e, tok=tok: e["name"] == tok.encode()))
     pool.append(lambda pid: Prim("t", ["-type", "d"], lambda e: e["kind"] == "dir"))
     pool.append(lambda pid: Prim("t", ["-type", "f"], lambda e: e["kind"] == "file"))
     pool.append(lambda pid: Prim("t", ["-maxdepth", "50"], lambda e: True))
@@ -266,10 +269,30 @@ def report(ctx, forest, bad):
                        "total_disagreements": len(bad)})
 
 
+def child_output_order(ctx, forest):
+    """the outputs of the actions of one file appear in evaluation order also when a later action is a command writing to the same
+    standard output (real binary, stdout a pipe): -printf text without a newline must not be overtaken by -exec's child"""
+    import subprocess
+    base = os.path.join(forest.dir, b"ord")
+    os.makedirs(base, exist_ok=True)
+    open(os.path.join(base, b"a"), "wb").close()
+    scen = [(["ord/a", "-printf", "A:%p ", "-exec", "echo", "B", ";"], b"A:ord/a B\n"),
+            (["ord/a", "-printf", "%p\\0", "-exec", "echo", "B", ";"], b"ord/a\0B\n"),
+            (["ord/a", "-printf", "A ", "-print", "-printf", "C ", "-execdir", "echo", "D", ";", "-printf", "E\\n"], b"A ord/a\nC D\nE\n"),
+            (["ord/a", "-print0", "-exec", "echo", "B", ";", "-printf", "C"], b"ord/a\0B\nC")]
+    for args, want in scen:
+        p = subprocess.run([fw.FIND] + args, stdout=subprocess.PIPE, stderr=subprocess.DEVNULL, cwd=forest.dir, env=xc.ENV, timeout=60)
+        ctx.count(("child-output-order", tuple(args)), True, "child-output-order")
+        if p.stdout != want or p.returncode != 0:
+            ctx.violation("find %s: output %r (exit %d); the actions evaluated left to right write %r" % (" ".join(args), p.stdout, p.returncode, want),
+                          {"property": "C01", "kind": "child-output-order", "find_args": args, "stdout": fw.hexs(p.stdout), "expected": fw.hexs(want), "exit": p.returncode})
+
+
 def run(ctx):
     rng = ctx.rng
     forest = wc.Forest("c01-")
     try:
+        child_output_order(ctx, forest)
         treenames, entry_names = [], {}
         for k in range(12 if ctx.thorough else 5):
             nm = b"e%d" % k
